@@ -558,6 +558,7 @@ type FuncContract struct {
 	Props       []string // property tags for the ensures clauses, optional
 	NoSweep     map[string]bool
 	NoFrame     bool
+	Nilable     map[string]bool
 }
 
 type SpecFun struct {
@@ -598,7 +599,7 @@ var clauseKeywords = map[string]bool{
 	"func": true, "requires": true, "ensures": true, "modifies": true, "writes": true, "inline": true, "pure": true,
 	"loop": true, "spec": true, "axiom": true, "lemma": true, "iface": true, "assert": true, "fresh": true,
 	"nilable-receiver": true, "trusted": true, "ghost": true, "guards": true, "lockinv": true, "cs": true,
-	"wait": true, "mode": true, "panics-when": true, "typeinv": true, "package": true, "nosweep": true, "noframe": true, "ifacegetters": true,
+	"wait": true, "mode": true, "panics-when": true, "typeinv": true, "package": true, "nosweep": true, "noframe": true, "ifacegetters": true, "nilable": true,
 }
 
 // LoadFile reads //@ lines of a Go contract file or every line of a .spec file.
@@ -801,6 +802,13 @@ func (cs *Contracts) LoadFile(path, pkgPath string, specOnly bool) {
 				cur.NilableRecv = true
 			case "noframe":
 				cur.NoFrame = true
+			case "nilable":
+				if cur.Nilable == nil {
+					cur.Nilable = map[string]bool{}
+				}
+				for _, w := range strings.Fields(strings.ReplaceAll(rest, ",", " ")) {
+					cur.Nilable[w] = true
+				}
 			case "nosweep":
 				for _, w := range strings.Fields(rest) {
 					cur.NoSweep[w] = true
